@@ -52,7 +52,22 @@ def ob_entry(timeout=10):
                     found[k.value] = ast.unparse(v)
     want = {'p_th_fss': 'np.median(params_bs[:, 0])', 'p_th_fss_left': 'np.quantile(params_bs[:, 0], 0.16)',
             'p_th_fss_right': 'np.quantile(params_bs[:, 0], 0.84)', 'p_th_fss_se': 'params_bs[:, 0].std()'}
-    problems = ['%s is %s' % (k, found.get(k)) for k in want if found.get(k) != want[k]]
+    if set(found) != set(want):
+        raise Unsupported('threshold entry keys not found as a dict literal')
+    import re
+    pats = {'p_th_fss': r"np\.median\(params_bs\[:, (\d+)\]\)$", 'p_th_fss_left': r"np\.quantile\(params_bs\[:, (\d+)\], ([0-9.]+)\)$",
+            'p_th_fss_right': r"np\.quantile\(params_bs\[:, (\d+)\], ([0-9.]+)\)$", 'p_th_fss_se': r"params_bs\[:, (\d+)\]\.std\(\)$"}
+    problems, q = [], {}
+    for k in want:
+        mm = re.match(pats[k], found[k])
+        if not mm:                                     # written some other way: not decided here, the bounded clause decides
+            raise Unsupported('threshold entry %s written as %s' % (k, found[k]))
+        if mm.group(1) != '0':
+            problems.append('%s reads column %s of the bootstrap array, the threshold is column 0' % (k, mm.group(1)))
+        if len(mm.groups()) > 1:
+            q[k] = float(mm.group(2))
+    if not (0 < q['p_th_fss_left'] <= 0.5 <= q['p_th_fss_right'] < 1):
+        problems.append('quantile levels %s do not bracket the median' % q)
     return dict(verdict='refuted' if problems else 'discharged', model=dict(problems=problems) if problems else None, backend='pyvc-structural', seconds=0, kind='plain',
                 detail='; '.join(problems) or 'median / 16% / 84% quantiles / std of column 0 of the same bootstrap array => left <= estimate <= right',
                 functions=[dict(function=f.ref, sha256_16=f.sha)], transparent=[])
@@ -70,14 +85,47 @@ def ob_status(timeout=10):
         problems.append('a non-literal status is returned')
     src = ast.unparse(f.node)
     for needed in ("entry['p_th_fss'] < entry['p_left']", "entry['p_th_fss'] > entry['p_right']", "np.isclose(entry['p_th_fss_left'], entry['p_th_fss_right'])", "pd.isna(entry['fss_params'])"):
-        if needed not in src:
-            problems.append('check %r missing' % needed)
+        if needed not in src and not problems:
+            raise Unsupported('source shape of get_fit_status not recognised (check %r not found literally)' % needed)
     return dict(verdict='refuted' if problems else 'discharged', model=dict(problems=problems) if problems else None, backend='pyvc-structural', seconds=0, kind='plain',
                 detail='; '.join(problems) or '%d defect checks precede the single success return' % (len(vals) - 1), functions=[dict(function=f.ref, sha256_16=f.sha)], transparent=[])
 
 
+def ob_pairing(timeout=10):
+    """fit_fss_params: the bootstrap value drawn for row i (from n_fail / n_trials of row i) is fitted against the (p, d) of the SAME row - the table is not re-ordered,
+    re-indexed, filtered or re-bound between the extraction of p_list / d_list / f_list and the bootstrap loop; the resample index is applied to all three arrays alike"""
+    f = get_func(AN, 'fit_fss_params')
+    body = f.node.body
+    extract_line = None
+    for n in ast.walk(f.node):
+        if isinstance(n, ast.Assign) and isinstance(n.targets[0], ast.Name) and n.targets[0].id in ('p_list', 'd_list', 'f_list'):
+            extract_line = max(extract_line or n.lineno, n.lineno)
+    problems = []
+    if extract_line is None:
+        raise Unsupported('p_list / d_list / f_list not extracted')
+    REORDER = {'sort_values', 'sort_index', 'sample', 'reindex', 'reset_index', 'drop', 'dropna', 'drop_duplicates', 'query', 'groupby', 'iloc', 'loc', 'head', 'tail', 'merge'}
+    for n in ast.walk(f.node):
+        if getattr(n, 'lineno', 0) <= extract_line:
+            continue
+        if isinstance(n, ast.Assign):
+            for t in n.targets:
+                if isinstance(t, ast.Name) and t.id in ('df_trunc', 'p_list', 'd_list', 'f_list'):
+                    problems.append('line %d re-binds %s after the rows were extracted' % (n.lineno, t.id))
+        if isinstance(n, ast.Call) and isinstance(n.func, ast.Attribute) and ast.unparse(n.func.value) == 'df_trunc' and n.func.attr in REORDER:
+            inplace = any(k.arg == 'inplace' and isinstance(k.value, ast.Constant) and k.value.value for k in n.keywords)
+            if inplace:
+                problems.append('line %d re-orders df_trunc in place (%s)' % (n.lineno, n.func.attr))
+    src = ast.unparse(f.node)
+    for needed in ('p_list[resample_index]', 'd_list[resample_index]', 'f_bs[resample_index]', 'df_trunc[n_trials_label].iloc[i]', 'df_trunc[n_fail_label].iloc[i]',
+                   "d_list = df_trunc['d'].values", "p_list = df_trunc['error_rate'].values"):
+        if needed not in src and not problems:
+            raise Unsupported('source shape of fit_fss_params not recognised (%r not found literally)' % needed)
+    return dict(verdict='refuted' if problems else 'discharged', model=dict(problems=problems) if problems else None, backend='pyvc-structural', seconds=0, kind='plain',
+                detail='; '.join(problems) or 'row i of the bootstrap is paired with (p, d) of row i; one resample index for all three arrays', functions=[dict(function=f.ref, sha256_16=f.sha)], transparent=[])
+
+
 def obligations(tier):
-    return [Ob('C16.ansatz', ob_ansatz, {}, timeout=30), Ob('C16.entry', ob_entry, {}, timeout=30, backend='pyvc-structural'), Ob('C16.status', ob_status, {}, timeout=30, backend='pyvc-structural')]
+    return [Ob('C16.pairing', ob_pairing, {}, timeout=30, backend='pyvc-structural'), Ob('C16.ansatz', ob_ansatz, {}, timeout=30), Ob('C16.entry', ob_entry, {}, timeout=30, backend='pyvc-structural'), Ob('C16.status', ob_status, {}, timeout=30, backend='pyvc-structural')]
 
 
 # ------------------------------------------------------------------------------------------------ native layer
@@ -120,9 +168,11 @@ def native_planted(pth, nu, A, Bc, C, rnd, nfiles=1, tol=None):
             return 'expected one threshold row, got %d' % len(th), None
         row = th.iloc[0]
         est, lo, hi = row['p_th_fss'], row['p_th_fss_left'], row['p_th_fss_right']
-        tol = tol or max(0.01 * pth, 3 * (hi - lo))
+        tol = tol or 0.01 * pth            # fixed fit tolerance (not scaled by the reported CI)
         if not (abs(est - pth) <= tol):
             return 'planted threshold %r, reported %r (CI [%r, %r])' % (pth, est, lo, hi), None
+        if (hi - lo) > 0.05 * pth:
+            return 'confidence interval [%r, %r] is wider than 5%% of the planted threshold with 20000 trials per point' % (lo, hi), None
         if not (lo <= est <= hi):
             return 'reported threshold %r outside its own confidence interval [%r, %r]' % (est, lo, hi), None
         if not (min(rates) <= est <= max(rates)):
@@ -134,8 +184,47 @@ def native_planted(pth, nu, A, Bc, C, rnd, nfiles=1, tol=None):
         shutil.rmtree(d, ignore_errors=True)
 
 
+def native_direct(pth, nu, A, Bc, C, order, rnd):
+    """fit_fss_params called directly on a planted table whose rows come in the given order"""
+    import pandas as pd, warnings
+    from panqec.analysis import fit_fss_params
+    dists = [5, 7, 9, 11]
+    half = 0.12 * pth
+    rates = [round(pth - half + 2 * half * j / 12, 6) for j in range(13)]
+    rows = []
+    for L in dists:
+        for p in rates:
+            x = (p - pth) * L ** nu
+            f = min(max(A + Bc * x + C * x * x, 0.0), 1.0)
+            rows.append(dict(d=L, error_rate=p, p_est=round(f * 20000) / 20000, n_trials=20000, n_fail=int(round(f * 20000)), code='Toric %dx%d' % (L, L)))
+    if order == 'by_rate':
+        rows.sort(key=lambda r_: (r_['error_rate'], r_['d']))
+    elif order == 'shuffled':
+        rnd.shuffle(rows)
+    elif order == 'by_distance_desc':
+        rows.sort(key=lambda r_: (-r_['d'], r_['error_rate']))
+    df = pd.DataFrame(rows)
+    with contextlib.redirect_stdout(io.StringIO()), warnings.catch_warnings():
+        warnings.simplefilter('ignore')
+        params_opt, params_bs, _ = fit_fss_params(df, min(rates), max(rates), p_nearest=pth, n_bs=40)
+    est, lo, hi = np.median(params_bs[:, 0]), np.quantile(params_bs[:, 0], 0.16), np.quantile(params_bs[:, 0], 0.84)
+    if abs(params_opt[0] - pth) > 0.01 * pth:
+        return 'best-fit threshold %r for planted %r (rows %s)' % (float(params_opt[0]), pth, order)
+    if abs(est - pth) > 0.01 * pth:
+        return 'bootstrap threshold %r for planted %r (rows %s)' % (float(est), pth, order)
+    if not (lo <= est <= hi) or (hi - lo) > 0.05 * pth:
+        return 'confidence interval [%r, %r] around %r is not a tight interval containing the estimate (rows %s; 20000 trials per point)' % (float(lo), float(hi), float(est), order)
+    if len(params_bs) < 36:
+        return '%d of 40 bootstrap fits failed (rows %s)' % (40 - len(params_bs), order)
+    return None
+
+
 def replay(r):
     rnd = random.Random(0)
+    for order in ('by_distance', 'by_rate', 'shuffled', 'by_distance_desc'):
+        why = native_direct(0.10, 1.0, 0.3, 1.5, 2.0, order, rnd)
+        if why:
+            return dict(confirmed=True, input=dict(p_th=0.10, nu=1.0, A=0.3, B=1.5, C=2.0, row_order=order), detail=why)
     why, _ = native_planted(0.10, 1.0, 0.3, 1.5, 2.0, rnd)
     return dict(confirmed=bool(why), input=dict(p_th=0.10, nu=1.0, A=0.3, B=1.5, C=2.0), detail=why or 'planted threshold recovered')
 
@@ -163,6 +252,15 @@ def bounded(tier, seed):
         if all(ests) and not np.allclose(ests[0], ests[1], rtol=1e-6, atol=1e-9):
             viol.append(dict(obligation='C16.bounded.order', input=dict(p_th=g[0]), detail='threshold depends on file/row order: %r vs %r' % (ests[0], ests[1])))
         samples.append(dict(planted=g, reported=ests[0]))
+    for g in grid[:2]:
+        for order in ('by_distance', 'by_rate', 'shuffled', 'by_distance_desc'):
+            try:
+                why = native_direct(*g, order, random.Random(seed))
+            except Exception as ex:      # noqa
+                why = 'fit_fss_params raises %s: %s' % (type(ex).__name__, str(ex)[:200])
+            ev += 1; nt.add((g, order))
+            if why:
+                viol.append(dict(obligation='C16.bounded.row_order', input=dict(p_th=g[0], nu=g[1], A=g[2], B=g[3], C=g[4], row_order=order), detail=why))
     out, seen = [], set()
     for v in viol:
         if v['obligation'] not in seen:
